@@ -62,7 +62,7 @@ type liveSeries struct {
 }
 
 func (c09) Run(e *Env) {
-	e.ProbeDecl("expired", "reported-idle", "boundary-exact", "revived-after-expiry", "negative-expiry-single-flush", "zero-expiry-long-idle", "data-at-flush-instant")
+	e.ProbeDecl("expired", "reported-idle", "boundary-exact", "revived-after-expiry", "negative-expiry-single-flush", "zero-expiry-long-idle", "data-at-flush-instant", "histogram-timer-series", "small-value-pool")
 	expChoices := []time.Duration{-time.Second, 0, 300 * time.Millisecond, 400 * time.Millisecond, 600 * time.Millisecond, time.Second, 1500 * time.Millisecond, 5 * time.Second}
 	cfg := W1Config{
 		Readers: 1, Parsers: e.Range(1, 2), Workers: e.Range(1, 3), Queue: []int{0, 2, 8}[e.Draw(3)], BatchSize: 1,
@@ -85,6 +85,10 @@ func (c09) Run(e *Env) {
 	series := GenSeries(e, e.Range(1, 4), []string{"c", "ms", "s", "g"})
 	for _, s := range series {
 		s.Pow2 = false
+		if (s.Type == "ms" || s.Type == "h") && e.Chance(1, 3) {
+			s.Tags = append(s.Tags, histTags[e.Draw(len(histTags))]) // histogram timers persist and expire like any timer
+			e.Probe("histogram-timer-series")
+		}
 	}
 	live := map[SeriesKey]*liveSeries{}
 	everExpired := map[SeriesKey]bool{}
@@ -188,6 +192,10 @@ func (c09) Run(e *Env) {
 			s := series[e.Draw(len(series))]
 			sent++
 			d := GenDP(e, s, ClientIP(0), sent)
+			if e.Bool() && (s.Type == "g" || s.Type == "ms" || s.Type == "h") {
+				d.ValStr = []string{"0", "1", "7.5"}[e.Draw(3)] // repeated values: refreshing a series with the value it already has
+				e.Probe("small-value-pool")
+			}
 			if w.Sock.Waiting() == 0 {
 				e.Failf("C09/no-reader", "no reader parked at quiescence")
 			}
